@@ -119,4 +119,13 @@ def lowerASCIILoop : Bytes → Nat → Nat → Bytes
 
 def lowerASCII (s : Bytes) : Bytes := lowerASCIILoop s 0 s.length
 
+/-- `Compile(expr)` = `CompileEx(expr, false)` -/
+def compile (expr : Bytes) : Except CErr Dissect := compileEx expr false
+
+/-- `MustCompile(expr)`: `panic(err)` when `Compile` fails -/
+def mustCompile (expr : Bytes) : Except String Dissect :=
+  match compile expr with
+  | .error _ => .error "panic"
+  | .ok d => .ok d
+
 end Rare.C12
